@@ -100,9 +100,8 @@ func runMacroCase(r *common.Run, addrs []int, ms []macro, class string) {
 	}, class)
 }
 
-// alphabet of macro operations for a configuration; full adds the cancel outcomes and
-// the occupant presence.
-func macroAlphabet(addrs, nicks []int, full bool) []macro {
+// alphabet of macro operations for a configuration (kinds: see the switch).
+func macroAlphabet(addrs, nicks []int, kind string) []macro {
 	var out []macro
 	seen := map[int]bool{}
 	var all []int
@@ -112,10 +111,16 @@ func macroAlphabet(addrs, nicks []int, full bool) []macro {
 			all = append(all, a)
 		}
 	}
+	full := kind == "full"
 	for c, a0 := range addrs {
-		out = append(out, macro{"JA", c, -1}, macro{"JE", c, -1}, macro{"LU", c, -1}, macro{"LE", c, -1})
-		if full {
-			out = append(out, macro{"JX", c, -1}, macro{"LX", c, -1}, macro{"JP", c, -1}, macro{"EJ", c, -1})
+		switch kind {
+		case "core": // a failed join is JP then EJ: other operations may come between
+			out = append(out, macro{"JA", c, -1}, macro{"JP", c, -1}, macro{"EJ", c, -1}, macro{"LU", c, -1}, macro{"LE", c, -1})
+		case "plain":
+			out = append(out, macro{"JA", c, -1}, macro{"JE", c, -1}, macro{"LU", c, -1}, macro{"LE", c, -1})
+		default:
+			out = append(out, macro{"JA", c, -1}, macro{"JE", c, -1}, macro{"LU", c, -1}, macro{"LE", c, -1},
+				macro{"JX", c, -1}, macro{"LX", c, -1}, macro{"JP", c, -1}, macro{"EJ", c, -1})
 		}
 		for _, a := range all {
 			if a != a0 && a%10 == a0%10 {
@@ -187,28 +192,28 @@ func macroLine(ms []macro) string {
 func runContention(r *common.Run) int {
 	type conf struct {
 		addrs, nicks []int
-		full         bool
+		kind         string
 		maxLen       int
 	}
 	confs := []conf{
-		{[]int{0, 0}, nil, false, 4},       // two channels for one occupant address
-		{[]int{0, 0}, []int{10}, false, 3}, // … which may also ask for another nickname
-		{[]int{0, 10}, nil, false, 3},      // two nicknames of one room, each channel may ask for the other's
-		{[]int{0, 0}, nil, true, 3},        // with cancelled calls, joins left pending, occupant presences
+		{[]int{0, 0}, nil, "core", 4},        // two channels for one occupant address
+		{[]int{0, 0}, []int{10}, "plain", 3}, // … which may also ask for another nickname
+		{[]int{0, 10}, nil, "plain", 3},      // two nicknames of one room, each channel may ask for the other's
+		{[]int{0, 0}, nil, "full", 3},        // with cancelled calls and occupant presences
 	}
 	if r.Tier == "thorough" {
 		confs = []conf{
-			{[]int{0, 0}, nil, true, 4},
-			{[]int{0, 0}, nil, false, 5},
-			{[]int{0, 0}, []int{10}, false, 4},
-			{[]int{0, 10}, nil, true, 4},
-			{[]int{0, 0, 10}, nil, false, 4},
+			{[]int{0, 0}, nil, "core", 5},
+			{[]int{0, 0}, []int{10}, "plain", 4},
+			{[]int{0, 10}, nil, "plain", 4},
+			{[]int{0, 0}, nil, "full", 3},
+			{[]int{0, 0, 10}, nil, "plain", 3},
 		}
 	}
 	n := 0
 	stop := func() bool { return len(r.Failures) >= 80 || r.Hist["problem"] >= 25 }
 	for _, cf := range confs {
-		alpha := macroAlphabet(cf.addrs, cf.nicks, cf.full)
+		alpha := macroAlphabet(cf.addrs, cf.nicks, cf.kind)
 		enumMacros(alpha, cf.addrs, cf.maxLen, func(ms []macro) {
 			if stop() {
 				return
@@ -218,10 +223,10 @@ func runContention(r *common.Run) int {
 			n++
 		})
 	}
-	rconfs := []conf{{[]int{0, 0}, []int{10}, true, 0}, {[]int{0, 10}, nil, true, 0}, {[]int{0, 0, 10}, nil, true, 0}, {[]int{0, 0}, nil, true, 0}}
+	rconfs := []conf{{[]int{0, 0}, []int{10}, "full", 0}, {[]int{0, 10}, nil, "full", 0}, {[]int{0, 0, 10}, nil, "full", 0}, {[]int{0, 0}, nil, "core", 0}}
 	for k := r.Pick(500, 8000); k > 0 && !stop(); k-- {
 		cf := rconfs[r.Rnd.Intn(len(rconfs))]
-		alpha := macroAlphabet(cf.addrs, cf.nicks, true)
+		alpha := macroAlphabet(cf.addrs, cf.nicks, cf.kind)
 		var ms []macro
 		for i := 5 + r.Rnd.Intn(5); i > 0; i-- {
 			ms = append(ms, alpha[r.Rnd.Intn(len(alpha))])
